@@ -66,6 +66,17 @@ def canonicalise_roles(dispa):
     return roles
 
 
+def _call_arg(call, params, name):
+    """the argument a call binds to parameter `name` of a callee with parameter list `params` (by position or by keyword)"""
+    for k in call.keywords:
+        if k.arg == name:
+            return k.value
+    if name in params and params.index(name) < len(call.args):
+        a = call.args[params.index(name)]
+        return None if isinstance(a, ast.Starred) else a
+    return None
+
+
 def render_rows(dispa, d, n):
     """Rows dispa renders recursively for an array of `d` >= 2 dimensions whose first axis has `n` entries: the function body is specialised
     to that case (ndim / len(shape) := d, shape[0] / len(matrix) := n), constant tests folded, constant-trip loops unrolled, and the recursive
@@ -262,6 +273,7 @@ def check(model, rep):
     rep.rule('R20.2', 'exactly one rendering per element / sub-array per iteration of range(shape[0]) on every path; precision nd; nd forwarded')
     rep.rule('R20.3', 'exhaustive dims dispatch; raising probes inside the catch-all; round() only under not-isinf')
     mat, nd = dispa.params[0], dispa.params[2]
+    _nd_arg = lambda c_: _call_arg(c_, dispa.params, nd)
     # find the dims dispatch chain
     chain = None
     for n in dispa.body():
@@ -318,7 +330,7 @@ def check(model, rep):
             rep.ob('R20.2', dispa, '%s: rendering appended to the result' % label, appended and bool(calls), 'a recursive rendering is computed but not appended',
                    line=calls[0].lineno if calls else None)
             if test != 'else':
-                fw = all(any(k.arg == 'nd' and src(k.value) == nd for k in c.keywords) for c in calls)
+                fw = all(_nd_arg(c) is not None and src(_nd_arg(c)) == nd for c in calls)
                 rep.ob('R20.2', dispa, '%s: nd forwarded' % label, fw, 'the requested number of decimals is not forwarded to the sub-arrays',
                        line=calls[0].lineno if calls else None)
             continue
@@ -442,7 +454,7 @@ def check(model, rep):
             appended = all(isinstance(dispa.module.parents.get(c), ast.AugAssign) and src(dispa.module.parents.get(c).target) == 'strr' for c in calls)
             rep.ob('R20.2', dispa, '%s: rendering appended to the result' % label, appended and bool(calls), 'a recursive rendering is computed but not appended', line=lp.lineno)
             if test != 'else':
-                fw = all(any(k.arg == 'nd' and src(k.value) == nd for k in c.keywords) for c in calls)
+                fw = all(_nd_arg(c) is not None and src(_nd_arg(c)) == nd for c in calls)
                 rep.ob('R20.2', dispa, '%s: nd forwarded' % label, fw, 'the requested number of decimals is not forwarded to the sub-arrays', line=lp.lineno)
     rets = [n for n in dispa.body() if isinstance(n, ast.Return)]
     rep.ob('R20.2', dispa, 'returns the accumulated string', bool(rets) and src(rets[-1].value) == 'strr', 'dispa does not return the accumulated string')
